@@ -355,17 +355,21 @@ func execOp(line string) string {
 		if len(f) != 2 {
 			return "bad-op concat"
 		}
-		return guarded(func() string {
-			a, b := unhexOr(f[0]), unhexOr(f[1])
-			one := func(x []byte) string {
+		a, b := unhexOr(f[0]), unhexOr(f[1])
+		one := func(x []byte) string {
+			return guarded(func() string {
 				ps, err := rtcp.Unmarshal(exactCap(x))
 				if err != nil {
 					return "err"
 				}
 				return packetsTokens(ps)
-			}
-			return "ok " + one(a) + " ; " + one(b) + " ; " + one(append(append([]byte{}, a...), b...))
-		})
+			})
+		}
+		ra, rb, rab := one(a), one(b), one(append(append([]byte{}, a...), b...))
+		if ra == "panic" || rb == "panic" || rab == "panic" {
+			return "panic"
+		}
+		return "ok " + ra + " ; " + rb + " ; " + rab
 	case "rembto":
 		// ReceiverEstimatedMaximumBitrate.MarshalTo into a caller's buffer of the given length: `rembto <body> <buflen>`
 		return guarded(func() string {
